@@ -121,8 +121,16 @@ impl StringPoolBuilder {
     ) -> io::Result<StringPool> {
         let mut strings = Vec::<(String, u16)>::new();
         for (length, refcount) in self.lengths_and_refcounts.into_iter() {
-            let mut buffer = vec![0u8; length as usize];
-            reader.read_exact(&mut buffer)?;
+            // Don't trust the length enough to allocate it up front; a damaged
+            // file can claim up to 4 GiB for a single string.
+            let mut buffer = Vec::<u8>::new();
+            reader.by_ref().take(length as u64).read_to_end(&mut buffer)?;
+            if buffer.len() < length as usize {
+                invalid_data!(
+                    "String pool data is too short for a string of length {}",
+                    length
+                );
+            }
             // An unused entry may still carry stale text in a file written by
             // another tool; unused entries are kept empty in memory.
             let string = if refcount == 0 {
